@@ -32,7 +32,7 @@ pub fn run(ctx: &Ctx) -> i32 {
         &mon,
         Spec::new(
             "exploration",
-            "honest generated histories; the adversarial prover assembles history proofs from real nodes: H1 newest k versions dropped with future-marker absence forged from every ancestor, H2 oldest dropped / fewer than N, H3 gaps/duplicates/reorderings, H4 wrong value/epoch/nonce, H5 marker proofs omitted/added/swapped/transplanted, H6 previous-version proof missing/other version, H7 tombstones under both verifier modes incl. re-dated tombstoned entries; oracle: key_history_verify Ok(list) => list == model list for that parameter (values may be empty only under AllowMissingValues). H8: dishonest trees (stale marker omitted or added k epochs late, versions 2..9): verification of any history covering the affected update must fail. distinct = (class, params kind, total versions class, position); all cases adversarial",
+            "honest generated histories; the adversarial prover assembles history proofs from real nodes: H1 newest k versions dropped with future-marker absence forged from every ancestor, H2 oldest dropped / fewer than N, H3 gaps/duplicates/reorderings and interior rewrites that keep the length and both end points (H3c), H4 wrong value/epoch/nonce, H5 marker proofs omitted/added/swapped/transplanted, H6 previous-version proof missing/other version, H7 tombstones under both verifier modes incl. re-dated tombstoned entries; oracle: key_history_verify Ok(list) => list == model list for that parameter (values may be empty only under AllowMissingValues). H8: dishonest trees (stale marker omitted or added k epochs late, versions 2..9): verification of any history covering the affected update must fail. distinct = (class, params kind, total versions class, position); all cases adversarial",
         )
         .need("honest_accepted", ctx.tier.pick(300, 5000))
         .need("candidates", ctx.tier.pick(10000, 200000))
@@ -257,6 +257,49 @@ async fn run_honest_tree<TC: Configuration>(cc: &CaseCtx, case: &HistCase, rng: 
                 e.reverse();
                 if let Some(p) = forge.history_proof(label, &e, cur, None).await {
                     j.judge(l, "H3-reversed", p, hp, false, "-");
+                }
+            }
+            // ---- H3c: same length and same first/last entry, interior rewritten from the label's TRUE entries
+            // (a duplicate covering a gap, interior swaps, arbitrary interior substitutions): every update
+            // proof is genuine and the marker proofs are the honest ones, so only the verifier's own
+            // consecutive-version check can reject these
+            if want.len() >= 3 {
+                let honest_e = entries(&want);
+                let pool = entries(&all);
+                let n = honest_e.len();
+                let mut cands: Vec<Vec<Entry>> = vec![];
+                for i in 1..n - 1 {
+                    for src in [i - 1, i + 1] {
+                        let mut e = honest_e.clone();
+                        e[i] = honest_e[src].clone();
+                        cands.push(e);
+                    }
+                }
+                for i in 1..n - 1 {
+                    for k in (i + 1)..n - 1 {
+                        let mut e = honest_e.clone();
+                        e.swap(i, k);
+                        cands.push(e);
+                    }
+                }
+                for _ in 0..12 {
+                    let mut e = honest_e.clone();
+                    for slot in e.iter_mut().take(n - 1).skip(1) {
+                        if rng.chance(1, 2) {
+                            *slot = rng.pick(&pool).clone();
+                        }
+                    }
+                    cands.push(e);
+                }
+                cands.retain(|e| *e != honest_e);
+                cands.sort();
+                cands.dedup();
+                rng.shuffle(&mut cands);
+                for e in cands.into_iter().take(40) {
+                    if let Some(p) = forge.history_proof(label, &e, cur, None).await {
+                        l.count("H3c_interior_rewrites", 1);
+                        j.judge(l, "H3c-interior-rewritten", p, hp, false, "-");
+                    }
                 }
             }
             // invented newer version
